@@ -217,6 +217,37 @@ pub fn check(c: &ListCase, obs: &mut Obs) -> Result<(), String> {
             }
         }
     }
+    // the same reduction the way a caller scanning a listing does it: the best name so far and
+    // the next candidate each live in one String that is overwritten in place (same address,
+    // often the same length, new text) - an answer remembered by address would be stale
+    for rev in [false, true] {
+        let mut best = String::with_capacity(256);
+        let mut cur = String::with_capacity(256);
+        let mut have = false;
+        let order: Vec<&str> = if rev { names.iter().rev().copied().collect() } else { names.clone() };
+        for n in order {
+            cur.clear();
+            cur.push_str(n);
+            let w: Option<String> = if have { p.best_match(&best, &cur) } else { p.best_match(&cur, &cur) }.map(String::from);
+            obs.verdicts += 1;
+            if let Some(w) = w {
+                best.clear();
+                best.push_str(&w);
+                have = true;
+            }
+        }
+        let got = if have { Some(best.as_str()) } else { None };
+        if got != winner {
+            if winner_ascii != winner && got == winner_ascii {
+                obs.known_hits.push(crate::props::c01::KF1);
+            } else {
+                return Err(format!(
+                    "reducing {:?}{} with pattern {:?} through two reused String buffers gives {:?}, the best matching candidate is {:?}",
+                    names, if rev { " (back to front)" } else { "" }, c.pattern, got, winner
+                ));
+            }
+        }
+    }
     let tie = matching.iter().any(|x| {
         matching.iter().any(|y| x != y && dewey::cmp(version_of(x), version_of(y), Letters::Rank) == Ordering::Equal)
     });
